@@ -72,3 +72,12 @@ Theorem C10_release_leaves_input_history : forall cfg l c,
   exists l', layout_event2 cfg l false c = Ok l' /\ hist_inputs l' = hist_inputs l.
 Proof. exact release_leaves_input_history. Qed.
 Print Assumptions C10_release_leaves_input_history.
+
+(* what the key-history and key-timing leaves read: every key that do_action puts down is entered in the key history, whoever asked
+   for it - a physical key or the inner action of a one-shot (is_oneshot = true), with or without a one-shot active *)
+From KV Require Import Keyberon.Layout Proofs.C10KeyHistory.
+Theorem C10_every_key_pressed_enters_the_key_history : forall cfg rec l k c d os ls l' cu,
+  do_action_body cfg rec l (KeyCode k) c d os ls = Ok (l', cu) ->
+  hist_keys l' = hist_push_front k (hist_keys l).
+Proof. exact every_key_pressed_enters_the_key_history. Qed.
+Print Assumptions C10_every_key_pressed_enters_the_key_history.
